@@ -287,7 +287,8 @@ ITER_NEXT_OF = {"core::slice::Iter": "<core::slice::Iter<'a, T> as core::iter::I
                 "core::slice::IterMut": "<core::slice::IterMut<'a, T> as core::iter::Iterator>::next",
                 "core::str::Bytes": "<core::str::Bytes as core::iter::Iterator>::next",
                 "core::str::Chars": "<core::str::Chars as core::iter::Iterator>::next"}
-ADAPTOR_NEXT_OF = {"core::iter::Enumerate": "<core::iter::Enumerate<I> as core::iter::Iterator>::next"}
+ADAPTOR_NEXT_OF = {"core::iter::Enumerate": "<core::iter::Enumerate<I> as core::iter::Iterator>::next",
+                   "core::iter::Map": "<core::iter::Map<I, F> as core::iter::Iterator>::next"}
 CONTAINS = {"core::ops::RangeInclusive::<Idx>::contains": "Le", "core::ops::Range::<Idx>::contains": "Lt"}
 TRY_BRANCH = "<core::result::Result<T, E> as core::ops::Try>::branch"
 FROM_RESIDUAL = "<core::result::Result<T, F> as core::ops::FromResidual<core::result::Result<core::convert::Infallible, E>>>::from_residual"
@@ -514,7 +515,8 @@ def _preds(rec):
 
 
 ADAPTOR_NEXT = {"core::iter::FilterMap": ("<core::iter::FilterMap<I, F> as core::iter::Iterator>::next", "core::iter::Iterator::filter_map"),
-                "core::iter::Filter": ("<core::iter::Filter<I, P> as core::iter::Iterator>::next", "core::iter::Iterator::filter")}
+                "core::iter::Filter": ("<core::iter::Filter<I, P> as core::iter::Iterator>::next", "core::iter::Iterator::filter"),
+                "core::iter::Map": ("<core::iter::Map<I, F> as core::iter::Iterator>::next", "core::iter::Iterator::map")}
 GENERIC_NEXT = {"core::slice::Iter": "<core::slice::Iter<'a, T> as core::iter::Iterator>::next",
                 "core::slice::IterMut": "<core::slice::IterMut<'a, T> as core::iter::Iterator>::next",
                 "core::iter::Enumerate": "<core::iter::Enumerate<I> as core::iter::Iterator>::next",
@@ -608,8 +610,8 @@ def desugar_adaptor_next(rec, prog, stats):
         cl = prog.fns[fty["path"]].rec
         if len(cl["locals"]) < 3:
             continue
-        arg_ty = cl["locals"][2]                     # FilterMap: the item; Filter: &item
-        item_ty = arg_ty if kind.endswith("FilterMap") else (arg_ty.get("to") if arg_ty.get("k") == "ref" else None)
+        arg_ty = cl["locals"][2]                     # FilterMap / Map: the item; Filter: &item
+        item_ty = arg_ty if kind.endswith(("FilterMap", "::Map")) else (arg_ty.get("to") if arg_ty.get("k") == "ref" else None)
         if item_ty is None:
             continue
         dty = rec["locals"][t["dest"]["local"]]
@@ -654,7 +656,7 @@ def desugar_adaptor_next(rec, prog, stats):
                                          "line": line}], "term": {"k": "goto", "target": t["target"]}})
         some_stmts = [{"k": "assign", "place": {"local": item, "proj": []},
                        "rv": {"k": "use", "op": {"k": "move", "place": {"local": x, "proj": [{"k": "downcast", "variant": 1, "name": "Some"}, {"k": "field", "i": 0, "ty": item_ty}]}}}, "line": line}]
-        if kind.endswith("FilterMap"):
+        if kind.endswith(("FilterMap", "::Map")):
             some_stmts.append({"k": "assign", "place": {"local": tup, "proj": []}, "rv": {"k": "aggregate", "agg": "tuple", "ops": [{"k": "move", "place": {"local": item, "proj": []}}]}, "line": line})
         else:
             some_stmts.append({"k": "assign", "place": {"local": iref, "proj": []}, "rv": {"k": "ref", "mut": False, "place": {"local": item, "proj": []}}, "line": line})
@@ -664,7 +666,14 @@ def desugar_adaptor_next(rec, prog, stats):
                               "term": {"k": "call", "callee": "core::ops::FnMut::call_mut", "resolved": None, "cargs": [fty, {"k": "tuple", "elems": [arg_ty]}], "rargs": [],
                                        "args": [{"k": "move", "place": {"local": cr, "proj": []}}, {"k": "move", "place": {"local": tup, "proj": []}}], "dest": {"local": y, "proj": []},
                                        "target": SW2, "line": line}})
-        if kind.endswith("FilterMap"):
+        if kind.endswith("::Map"):
+            # Map::next = inner.next().map(f): Some(x) -> Some(f(x)), no retry
+            rec["blocks"].append({"stmts": [{"k": "assign", "place": copy.deepcopy(t["dest"]),
+                                             "rv": {"k": "aggregate", "agg": "adt", "path": "core::option::Option", "variant": 1, "vname": "Some", "args": dty.get("args", []), "is_enum": True,
+                                                    "ops": [{"k": "move", "place": {"local": y, "proj": []}}]}, "line": line}],
+                                  "term": {"k": "goto", "target": t["target"]}})
+            rec["blocks"].append({"stmts": [], "term": {"k": "unreachable"}})
+        elif kind.endswith("FilterMap"):
             rec["blocks"].append({"stmts": [{"k": "assign", "place": {"local": dy, "proj": []}, "rv": {"k": "discr", "place": {"local": y, "proj": []}}, "line": line}],
                                   "term": {"k": "switch", "discr": {"k": "move", "place": {"local": dy, "proj": []}}, "dty": isz, "arms": [[0, bi], [1, HIT]], "otherwise": UNR, "line": line}})
             rec["blocks"].append({"stmts": [{"k": "assign", "place": copy.deepcopy(t["dest"]), "rv": {"k": "use", "op": {"k": "move", "place": {"local": y, "proj": []}}}, "line": line}],
